@@ -10,6 +10,7 @@ CONSTANTS
   PairPer = 8
   TriplePer = 6
   OverlapPer = 6
+  Doubling = FALSE
   GroupsExhaustive = TRUE
   Salt = 0
 INIT Init
